@@ -39,7 +39,7 @@ safe Version [C03]
 
 /*@
 module gov
-props C17 C19
+props C17 C19 C20
 use common vote
 dialect neovm
 
@@ -116,11 +116,27 @@ func SetConfig(id, key, val)
         ((notifs.len == old(notifs).len + 1) == (voted(old(xcalls("Vote")).len) >= thr(old(store))))
   ensures [C17] !notaryDisabled(old(store)) ==> W(alphabet())
   ensures [C17] notifs == old(notifs) || notifs == old(notifs) ++ [SetConfig(id, key, val)]
+  ensures [C20] notifs != old(notifs) ==> store.has("config" ++ key) && store.get("config" ++ key) == val
+  ensures [C20] notifs == old(notifs) ==> store.opt("config" ++ key) == old(store).opt("config" ++ key)
   ensures [C17] forall k Bytes {store.opt(k)} :: k != "ballots" && k != "config" ++ key ==> store.opt(k) == old(store).opt(k)
   // the vote is cast for, and a fired decision clears, the ballot of this decision id (votes for different ids never mix)
   ensures [C17] xcalls("Vote").len == old(xcalls("Vote")).len + 1 ==> exists v Bytes :: xcalls("Vote")[old(xcalls("Vote")).len] == ev_Vote(id, v)
   ensures [C17] xcalls("RemoveVotes").len == old(xcalls("RemoveVotes")).len || (xcalls("RemoveVotes").len == old(xcalls("RemoveVotes")).len + 1
         && xcalls("RemoveVotes")[old(xcalls("RemoveVotes")).len] == ev_RemoveVotes(id))
+
+// C20: the configuration map of the main-chain contract: config(key) reads exactly config<key>, a fired setConfig stores
+// exactly config<key> := val, listConfig returns every record under the prefix "config" in key order with the prefix removed
+func Config(key) (r)
+  pure
+  ensures [C20] r == store.opt("config" ++ key)
+
+func ListConfig() (r)
+  pure
+  ensures [C20] len(r) == cnt(store, "config")
+  ensures [C20] forall j Int {r[j]} :: 0 <= j && j < len(r) ==> r[j] == Record{skey(store, "config", j)[6:], store.get(skey(store, "config", j))}
+  loop 0
+    invariant len(config) == $it.pos
+    invariant forall j Int {config[j]} :: 0 <= j && j < $it.pos ==> config[j] == Record{$it.key(j)[6:], store.get($it.key(j))}
 
 func AlphabetUpdate(id, args)
   ensures [C17] notaryDisabled(old(store)) ==> xcalls("Vote").len == old(xcalls("Vote")).len + 1
